@@ -115,7 +115,7 @@ var snapSelect = map[string][]string{
 	"C14": {fMain + "#*", fCommand + "#Command.Run", fCommand + "#New", fSpecP + "#Parse/frame", fAstP + "#Parse/frame", fNfaP + "#Parse", fReAst + "#Parse", fReIn + "#*"},
 	"C15": {fSpec + "#Spec.DFA", fSymtab + "#SymbolTable.ensureSingleDefs", fSymtab + "#SymbolTable.ensureDistinctDefs", fSymtab + "#SymbolTable.orderedTerminals",
 		fSymtab + "#SymbolTable.Definitions", fSpec + "#Spec.resolveConflicts", fSpec + "#Spec.dominantAction", fGolang + "#generator.generateLexer", fGolang + "#groupDFAStates",
-		fCommand + "#Command.Run"},
+		fCommand + "#Command.Run", fNfaP + "#Parse", fReAst + "#Parse"},
 	"C16": {fMain + "#*", fCommand + "#Command.Run", fCommand + "#New", fGolang + "#Generate", fGolang + "#generator.prepare", fGolang + "#generator.generateCore",
 		fGolang + "#generator.generateParser", fGolang + "#generator.renderTemplate", fCode + "#*"},
 	"C17": {fStrings + "#hashStrings", fSymtab + "#NewSymbolTable", fSymtab + "#SymbolTable.Reset", fParser + "#New", fReRune + "#*", fSpecP + "#Parse/frame", fReAst + "#Parse", fNfaP + "#Parse"},
